@@ -107,7 +107,33 @@ class Engine:
                     return None
                 out |= ws
             return out
-        return Facts(cfg, writes_of, start, recv_writes)
+        def arg_mutated(n: Node, i: int):
+            """False when every resolved callee provably leaves positional
+            argument i unmodified; None/True otherwise."""
+            res: Resolution = n.extra.get('res')
+            if res is None or res.unresolved or n.extra.get('partial'):
+                return None
+            if any(isinstance(a, ast.Starred) for a in n.ast.args):
+                return None
+            for q in res.externals:
+                last = q.rpartition('.')[2].replace('()', '')
+                if last not in self.cg._SAFE_EXTERNALS and \
+                        q not in res.ctor_of:
+                    return None
+            if not res.targets and not res.externals:
+                return None
+            for t in res.targets:
+                ps = list(t.func.params)
+                if t.func.kind in ('method', 'classmethod', 'property',
+                                   'setter') and t.self_cls is not None \
+                        and ps:
+                    ps = ps[1:]
+                if i >= len(ps):
+                    return None
+                if self.cg.mutates_param(t.ctx(), ps[i]):
+                    return True
+            return False
+        return Facts(cfg, writes_of, start, recv_writes, arg_mutated)
 
     # --------------------------------------------------------- predicates
     @staticmethod
